@@ -28,7 +28,7 @@ REQUIRED = ["C16:returns", "C16:cagr", "C16:volatility", "C16:drawdown", "C16:ma
             "C16:downside-volatility", "C16:upside-volatility", "C16:sharpe", "C16:sortino", "C16:calmar", "C16:martin",
             "C16:tracking-error", "C16:scale-pow2-bit-identical", "C16:scale-positive", "C16:cagr-structural",
             "C16:drawdown-structural", "C16:corruption-rejected", "C16:frame-columns", "C16:tearsheet"]
-REQUIRED_CATS = ["index:tz-intraday", "tied-returns", "plateau", "index:D", "index:B", "index:intraday", "index:irregular", "frame", "series"]
+REQUIRED_CATS = ["measured-then-edited-in-place", "index:tz-intraday", "tied-returns", "plateau", "index:D", "index:B", "index:intraday", "index:irregular", "frame", "series"]
 TECHNIQUE = "runtime monitoring: pure-Python reference implementation of the textbook definitions compared on generated level series; corruption matrix enumerated"
 LEVEL_TEXT = ("Exploration against an independent pure-Python reference of every listed metric, with exact (power-of-two) and "
               "approximate scale-invariance twins and a fully enumerated single-defect corruption matrix.")
@@ -168,6 +168,15 @@ def series_case(ctx):
             lev[j] = lev[j - 1]
         ctx.cat("plateau")
     ser = pd.Series(lev, idx, name="s")
+    if r.random() < 0.3 and n >= 3:
+        # the SAME object was measured before, when one of its levels was still different (a provisional value
+        # corrected in place, a live record): what counts is what the object holds when it is measured
+        k_ = r.randrange(n)
+        ser.iloc[k_] = lev[k_] * r.choice([1.37, 0.6])
+        with np.errstate(all="ignore"):
+            ser.volatility(), ser.max_drawdown(), ser.cagr(), ser.simple_returns(), ser.drawdown()
+        ser.iloc[k_] = lev[k_]
+        ctx.cat("measured-then-edited-in-place")
     dates = list(idx.to_pydatetime())
     rf = r.choice([0.0, 0.01, "series"])
     if rf == "series":
